@@ -6,7 +6,7 @@
 (*   then advances by `stride` bath steps, saturating at cutoff_indx.      *)
 (* The state time at inner step k is k*stride bath steps.                  *)
 (***************************************************************************)
-EXTENDS Integers, Sequences, TLC
+EXTENDS Integers, Sequences, TLC, TDIndexOps
 
 CONSTANTS MaxNtProp, MaxNref, MaxStride, MaxNtBath
 
@@ -18,7 +18,7 @@ VARIABLES ntprop, nref, stride, cut, ntens,   \* configuration
 vars == <<ntprop, nref, stride, cut, ntens, k, indxR, lastRead>>
 
 \* the propagation axis lies inside the bath axis
-Fits(np, nr, st, nb) == (np - 1) * nr * st <= nb - 1
+Fits(np, nr, st, nb) == FitsIn(np, nr, st, nb)
 
 Init ==
   /\ ntprop \in 2 .. MaxNtProp /\ nref \in 1 .. MaxNref
@@ -27,12 +27,12 @@ Init ==
   /\ Fits(ntprop, nref, stride, ntens)
   /\ k = 0 /\ indxR = 1 /\ lastRead = -1
 
-Total == (ntprop - 1) * nref
+Total == TotalSteps(ntprop, nref)
 
 Read ==
   /\ k < Total
   /\ lastRead' = indxR
-  /\ indxR' = IF indxR < cut - 1 THEN indxR + stride ELSE cut
+  /\ indxR' = NextIndex(indxR, stride, cut)
   /\ k' = k + 1
   /\ UNCHANGED <<ntprop, nref, stride, cut, ntens>>
 
